@@ -247,10 +247,7 @@ func MatchConnModel(model *Model, c *Case, cs *connState, t *Transcript) *MatchR
 	// "delivered without waiting for further client input": at every quiescence
 	// point the replies to everything fed so far must already be on the wire
 	if !res.Loose {
-		msgCount := make([]int, len(cs.cc.Steps)+1)
-		for i, st := range cs.cc.Steps {
-			msgCount[i+1] = msgCount[i] + len(st.Msgs)
-		}
+		msgCount := cs.cc.CompletedBefore()
 		offs := make([]int, len(t.Msgs)+1)
 		for i, m := range t.Msgs {
 			offs[i] = m.Off + t.Base
